@@ -115,11 +115,18 @@ def check_predict_vs_dist(ctx, lines, expect, reg, Xq, cfg, clsname):
     return rv, mean, std, ent
 
 
+def edge_seed(seed):
+    """a quarter of the cases use the smallest seeds 0 / 1 (0 is falsy in Python), derived from the case so that a replay
+    uses the same one"""
+    return seed if seed % 4 else (seed // 4) % 2
+
+
 def check_sample_y(ctx, lines, expect, reg, Xq, cfg, clsname, rv_ok):
     if not rv_ok:
         ctx.count("sample_y_skipped_invalid_distribution")
         return
-    ns, seed = cfg["n_samples"], cfg["seed"]
+    ns, seed = cfg["n_samples"], edge_seed(cfg["seed"])
+    ctx.count("sample_y_seed_" + ("0" if seed == 0 else ("1" if seed == 1 else "large")))
     draws = []
     orig = reg.predict_target_distribution
 
@@ -450,7 +457,7 @@ def case_wrap(ctx, lines, expect, cfg):
         check_sample_y(ctx, lines, expect, reg, Xq, cfg, clsname, bool(np.all(np.isfinite(scale)) and np.all(scale > 0)))
     elif "sample" in cfg["estimator"]:
         # SklearnRegressor.sample_y: delegate, or draw from N(label mean, label std)
-        ns, seed = cfg["n_samples"], cfg["seed"]
+        ns, seed = cfg["n_samples"], edge_seed(cfg["seed"])
         try:
             s1 = reg.sample_y(Xq, n_samples=ns, random_state=seed)
             s2 = reg.sample_y(Xq, n_samples=ns, random_state=seed)
